@@ -3,7 +3,7 @@
 //! no library operation exercises - an `instantiate()` that names the graphs and nodes it creates (legal: every
 //! instantiation gets its own scratch context), several auxiliary graphs, an operation nested in itself with a
 //! smaller parameter.
-use ciphercore_base::custom_ops::{CustomOperation, CustomOperationBody, Not};
+use ciphercore_base::custom_ops::{CustomOperation, CustomOperationBody, Not, Or};
 use ciphercore_base::data_types::{array_type, scalar_type, Type, BIT};
 use ciphercore_base::data_values::Value;
 use ciphercore_base::errors::Result;
@@ -157,5 +157,38 @@ impl CustomOperationBody for VTwoAux {
     }
     fn get_name(&self) -> String {
         format!("VTwoAux(swap={})", self.swap)
+    }
+}
+
+/// x AND y (`late` = false) or x OR y (`late` = true) on two bit arrays of one type. `instantiate()` always builds
+/// BOTH candidate graphs - first the AND graph (plain Multiply), then the OR graph (library operation `Or`, itself
+/// a custom operation) - and returns one of them: with `late` = false the returned graph is not the last graph of
+/// the scratch context, and a graph created after it contains a custom operation.
+#[derive(Debug, Serialize, Deserialize, Eq, PartialEq, Hash)]
+pub struct VPick {
+    pub late: bool,
+}
+
+#[typetag::serde]
+impl CustomOperationBody for VPick {
+    fn instantiate(&self, context: Context, arguments_types: Vec<Type>) -> Result<Graph> {
+        if arguments_types.len() != 2 || arguments_types[0] != arguments_types[1] {
+            return Err(runtime_error!("VPick expects two bit arrays of one type"));
+        }
+        let t = bit_array(&arguments_types[..1], "VPick")?;
+        let g_and = context.create_graph()?;
+        let x = g_and.input(t.clone())?;
+        let y = g_and.input(t.clone())?;
+        x.multiply(y)?.set_as_output()?;
+        g_and.finalize()?;
+        let g_or = context.create_graph()?;
+        let x = g_or.input(t.clone())?;
+        let y = g_or.input(t)?;
+        g_or.custom_op(CustomOperation::new(Or {}), vec![x, y])?.set_as_output()?;
+        g_or.finalize()?;
+        Ok(if self.late { g_or } else { g_and })
+    }
+    fn get_name(&self) -> String {
+        format!("VPick(late={})", self.late)
     }
 }
